@@ -163,6 +163,10 @@ PLACED = ["break", "continue", "return", "return 1", "return 1, 2", "func inner(
           "var xs2 = []int{1}", "panic(\"p\")", "qv()"]
 
 
+HISTORY = ["for k0 := 0; k0 < 1; k0++ {\n\tprint(k0)\n}\n", "func g0() {\n\tfor b {\n\t\tbreak\n\t}\n}\ng0()\n", "if b {\n\tprint(1)\n}\n",
+           "switch i {\ncase 1:\n\tprint(1)\n}\n", "for _, v0 := range xs {\n\tif b {\n\t\tcontinue\n\t}\n}\nfunc g1() int {\n\treturn 1\n}\nprint(g1())\n"]
+
+
 def placement_cases(rng, depth3):
     """every control statement under every nesting of constructs (round 5: a `continue` the parser lets through crashes the
     Batch converter, which indexes its stack of open loops without a check): script or error, never a crash"""
@@ -176,6 +180,15 @@ def placement_cases(rng, depth3):
             for w in reversed(nest):
                 body = w % body
             out.append(ZOO_PRELUDE + body + "\n")
+    # the same after a construct that has been COMPLETED earlier in the transpilation (round 10: C13-C, the Batch converter asks "was any
+    # loop ever emitted" instead of "is a loop open now" - counters and stacks that survive from one construct to the next)
+    for nest in [[]] + [[w] for w in WRAPPERS]:
+        for st in PLACED:
+            body = st
+            for w in reversed(nest):
+                body = w % body
+            for hist in HISTORY:
+                out.append(ZOO_PRELUDE + hist + body + "\n")
     return out
 
 
